@@ -41,6 +41,7 @@ type Run struct {
 	samples    []any
 	Assume     []string
 	findings   []Finding
+	suppressed int
 }
 
 type Violation struct {
@@ -121,10 +122,14 @@ func (r *Run) Violate(signature, detail string, replay any) {
 			return // one replay per signature
 		}
 	}
+	if len(r.violations) >= 8 {
+		r.suppressed++
+		return
+	}
 	path := r.writeReplay(signature, detail, replay)
 	r.violations = append(r.violations, Violation{signature, detail, path})
 	fmt.Printf("VIOLATION property=%s replay=%s\n", r.ID, path)
-	fmt.Printf("  signature: %s\n  detail: %s\n", signature, trunc(detail, 1500))
+	fmt.Printf("  signature: %s\n  detail: %s\n", signature, trunc(detail, 700))
 }
 
 func trunc(s string, n int) string {
